@@ -30,6 +30,34 @@ pub(crate) fn validate_values(
     value_of_correct_type(diagnostics, schema, ty, &argument.value, var_defs);
 }
 
+/// A variable used as a ListValue entry or as the value of an ObjectField must be allowed in
+/// that position (IsVariableUsageAllowed), like a variable used directly as an argument value.
+/// Returns `false` after reporting a variable whose type does not fit.
+fn nested_variable_usage_allowed(
+    diagnostics: &mut DiagnosticList,
+    location_ty: &Node<ast::Type>,
+    has_location_default_value: bool,
+    value: &Node<ast::Value>,
+    var_defs: &[Node<ast::VariableDefinition>],
+) -> bool {
+    let ast::Value::Variable(var_name) = &**value else {
+        return true;
+    };
+    // An undefined variable is reported by `value_of_correct_type`
+    let Some(var_def) = var_defs.iter().find(|v| v.name == *var_name) else {
+        return true;
+    };
+    let allowed = super::variable::is_variable_usage_allowed_at(
+        var_def,
+        location_ty,
+        has_location_default_value,
+    );
+    if !allowed {
+        unsupported_type(diagnostics, value, location_ty);
+    }
+    allowed
+}
+
 pub(crate) fn value_of_correct_type(
     diagnostics: &mut DiagnosticList,
     schema: &crate::Schema,
@@ -194,7 +222,15 @@ pub(crate) fn value_of_correct_type(
                 let item_type = ty.same_location(ty.item_type().clone());
                 if type_definition.is_input_type() {
                     for v in li {
-                        value_of_correct_type(diagnostics, schema, &item_type, v, var_defs);
+                        if nested_variable_usage_allowed(
+                            diagnostics,
+                            &item_type,
+                            false,
+                            v,
+                            var_defs,
+                        ) {
+                            value_of_correct_type(diagnostics, schema, &item_type, v, var_defs);
+                        }
                     }
                 } else {
                     unsupported_type(diagnostics, arg_value, &item_type);
@@ -250,7 +286,15 @@ pub(crate) fn value_of_correct_type(
                     let used_val = obj.iter().find(|(obj_name, ..)| obj_name == input_name);
 
                     if let Some((_, v)) = used_val {
-                        value_of_correct_type(diagnostics, schema, ty, v, var_defs);
+                        if nested_variable_usage_allowed(
+                            diagnostics,
+                            ty,
+                            f.default_value.is_some(),
+                            v,
+                            var_defs,
+                        ) {
+                            value_of_correct_type(diagnostics, schema, ty, v, var_defs);
+                        }
                     }
                 })
             }
